@@ -48,6 +48,8 @@ def jobs_for(tier: str) -> list[dict]:
             for via in ("sink", "generator"):
                 for name, stmts in small if tier == "quick" else sweep:
                     jobs.append(dict(integ="generic", physical=physical, name=name, stmts=stmts, preset=(8, 8, 8), via=via, parsers=all_parsers, **fr))
+    # thresholds written in the source (batch sizes, default frame size, chunk sizes) scaled below the sequence length
+    jobs += pipejob.scaled_jobs("generic", all_parsers)
     return jobs
 
 
